@@ -377,10 +377,11 @@ PROPS = {
    technique='exhaustive enumeration of the alphabet (component-wise function or operator) x (overload shape) x (vector length 1-4) x (element type) x (qualifier) with complete products of a special-value lattice as inputs, every tuple placed in every lane; oracle = the scalar overload of GLM itself on each component',
    text='Every component-wise function and operator of common/exponential/trigonometric/integer/vector_relational and their ext/gtc/gtx twins is instantiated for every length 1-4, highp/mediump/lowp and every element type it accepts (float, double, int, uint, i8, u8, i16, u16, i64, u64, bool), in every overload shape (vec-vec, vec-scalar, scalar-vec, vec-vec1, vec1-vec, scalar-edge forms, out-parameter forms, compound assignment, ++/--), and evaluated on the complete n-ary product of the special-value lattice; component i of the vector result is compared with the scalar overload on component i (identical bits for selection/rounding/comparison/integer/single-libm-call functions, value equality for arithmetic operators, rounding tolerance for mix/smoothstep/mod/fma, 2^-8 relative for lowp inversesqrt). Matrix abs/mix/equal on all nine shapes. Also run with the aligned qualifiers (GLM_FORCE_DEFAULT_ALIGNED_GENTYPES + intrinsics: the SIMD kernels against the scalar overloads, lowp kernels within 2^-8 on operands in the estimates domain), with compound assignments whose right-hand side aliases the vector or one of its components; the thorough tier enlarges the lattices (all 256 values of 8-bit types) and adds clang and AVX2.',
    rule='thorough tier: the lattices grow to ~430 float / ~470 double values (every 8th binade edge with 4 mantissa patterns, ties k+0.5, decimal and trigonometric constants), ALL 256 values of the 8-bit types (binary operations complete: 65536 pairs), ~250-420 patterns for 16/32/64-bit integers, ternary operations on the first 173 (119 for integers) values cubed, two compilers. quick tier: VALUES<T>: 77 float / 80 double special values (+-0, subnormals, ties, 2^23, 2^24, 2^31, max, inf, quiet and signalling NaN ...), 23 integer patterns per width (0, 1, extremes, alternating and run patterns); unary ops sweep VALUES, binary VALUES^2, ternary VALUES^3; lane k of a vector receives the tuple at rotated indices so neighbouring lanes always hold different tuples. Non-trivial = tuple inside the operator domain (no signed overflow, no division by zero, shift count < width).'),
- 'C02': dict(src='drivers/c02.cpp', level='model_checking', mc=mc_c02, parts=7, quick_parts=[0, 1, 2], flags=['-O1'], configs=['default', 'intr_sse2_defaligned', 'intr_avx2_defaligned', 'clang'], configs_quick=['default', 'intr_sse2_defaligned'],
-   technique='exhaustive enumeration of operand lattices that are complete for bilinear index errors (TAG, DEV_2 over base 0, DEV_1 over TAG) for all 27 products / 9 shapes / 81 conversions, plus breadth-first exploration of all operation sequences up to a depth over a 12-operation alphabet, each replayed on the real matrix objects and on a plain-array reference model',
-   text='Stateless part: every shape x compatible operand shape x element type is evaluated on all operand tuples differing from zero in at most two entries (five non-zero values each), on distinct-prime tagged operands and their single-entry deviations; by bilinearity this exposes every wrong, missing, duplicated or mis-signed product term. Explicit-state part: all sequences (depth 2 quick, 3-4 thorough) of compound assignments, ++/--, negation, self-multiplication (aliasing) and transpose from three start matrices per shape, states = value vectors, every transition validated against the array model. Float/double lattices are also run with inexact entries (e/7): products within (K+2)u sum|terms| of the exact sum of the stored operands, single-rounding operators bit-exact; aligned SIMD matrix types (SSE2, AVX2) and clang as further configurations.',
-   rule='float/double additionally with every entry divided by 7 (inexact): products and sums within (K+2) u sum|terms| of the exact sum of the stored operands, single-rounding operators bit-exact; configurations: default, aligned SIMD types (SSE2, AVX2), clang. per op: TAG + DEV_2(0,{-2,-1,1,2,3}) + DEV_1(TAG,{0,-p}) over the combined entry list of the operands (thorough adds a DEV_3 sub-lattice for <=18 entries and element types uint, i8, i16, i64); sequences: all words over the 12-op alphabet up to the depth from 3 start matrices; a sequence whose exact result leaves the exactly-representable range is cut (counted trivial).'),
+ 'C02': dict(src='drivers/c02.cpp', level='model_checking', mc=mc_c02, parts=7, quick_parts=[0, 1, 2], flags=['-O1'], configs=['default', 'intr_sse2_defaligned', 'intr_avx2_defaligned', 'clang', 'cxx98'], configs_quick=['default', 'intr_sse2_defaligned', 'cxx98'],   # cxx98: the pre-C++11 twins of the constructors (no initializer lists)
+  
+   technique='exhaustive enumeration of operand lattices that are complete for bilinear index errors (TAG, DEV_2 over base 0, DEV_1 over TAG) for all 27 products / 9 shapes / 81 conversions, plus breadth-first exploration of all operation sequences up to a depth over a 14-operation alphabet, each replayed on the real matrix objects and on a plain-array reference model',
+   text='Stateless part: every shape x compatible operand shape x element type is evaluated on all operand tuples differing from zero in at most two entries (five non-zero values each), on distinct-prime tagged operands and their single-entry deviations; by bilinearity this exposes every wrong, missing, duplicated or mis-signed product term. Explicit-state part: all sequences (depth 3 quick, 4-5 thorough) of compound assignments, ++/--, negation, self-multiplication (aliasing), transpose and shape round trips through mat4x4 / mat2x2 from three start matrices per shape, states = value vectors, every transition validated against the array model. Float/double lattices are also run with inexact entries (e/7): products within (K+2)u sum|terms| of the exact sum of the stored operands, single-rounding operators bit-exact; aligned SIMD matrix types (SSE2, AVX2) and clang as further configurations.',
+   rule='float/double additionally with every entry divided by 7 (inexact): products and sums within (K+2) u sum|terms| of the exact sum of the stored operands, single-rounding operators bit-exact; configurations: default, aligned SIMD types (SSE2, AVX2), clang. per op: TAG + DEV_2(0,{-2,-1,1,2,3}) + DEV_1(TAG,{0,-p}) over the combined entry list of the operands (thorough adds a DEV_3 sub-lattice for <=18 entries and element types uint, i8, i16, i64); sequences: all words over the 14-op alphabet up to the depth from 3 start matrices; a sequence whose exact result leaves the exactly-representable range is cut (counted trivial).'),
  'C06': dict(src='drivers/c06.cpp', level='exploration', configs=['default', 'intr_sse2_defaligned', 'intr_avx2_defaligned'], configs_quick=['default', 'intr_sse2_defaligned'],
    technique='exhaustive enumeration of every code of every field of every pack format (all 2^2..2^16 codes per field, three companion patterns) and of structured float lattices (all 2^32 floats for the scalar pack functions, thorough) through pack/unpack, against a per-format reference decoder',
    text='37 formats described once (field offset/width/kind) and explored generically. Code sweep: every code of every <=16-bit field (complete) - decode value and component order, re-pack of canonical codes, unpack.pack.unpack idempotence, Inf/NaN codes, monotone decoding. Real sweep: every float of F32_EDGE + a grid around every quantisation step (quick) / all 2^32 floats for single-field formats (thorough) in every field: half-step (normalised) or one-mantissa-step (small float, shared exponent) accuracy, clamping at both range ends, monotonicity, no cross-talk between fields. F3x9_E1x5: all 2^32 words in the thorough tier.',
